@@ -121,6 +121,22 @@ ToJSONDataReps ==
      [k |-> "list", items |-> <<StrV(S_toJSON), StrV(Ka), StrV(S_x)>>], [k |-> "list", items |-> <<StrV(Ka), StrV(Kb)>>],
      [k |-> "undefkey", key |-> S_toJSON], [k |-> "replkey", key |-> S_toJSON, v |-> A1(IntV(5))]}
 
+(* strings that LOOK like escape sequences or need escaping: Quote (15.12.3)  *)
+(* works unit by unit - a backslash becomes \\\\ whatever follows it - and the     *)
+(* result must be a JSON text that reads back as the same string             *)
+BS(n) == [i \in 1..n |-> 92]
+Hex4 == {<<48, 48, 51, 99>>, <<48, 48, 51, 67>>, <<48, 48, 51, 101>>, <<48, 48, 51, 69>>, <<48, 48, 50, 54>>, <<48, 48, 50, 50>>,
+         <<48, 48, 53, 99>>, <<48, 48, 53, 67>>, <<50, 48, 50, 56>>, <<50, 48, 50, 57>>, <<48, 48, 48, 97>>, <<48, 48, 48, 65>>, <<48, 48, 48, 48>>}
+EscLike == {BS(n) \o <<117>> \o h : n \in 0..3, h \in Hex4}
+EscAlpha == <<92, 34, 117, 48, 99, 60, 62, 38, 10, 8232, 47, 8>>
+EscShort == {<<>>} \cup {<<EscAlpha[i]>> : i \in 1..Len(EscAlpha)} \cup {<<EscAlpha[i], EscAlpha[j]>> : i, j \in 1..Len(EscAlpha)}
+EscStrings ==
+    EscLike \cup EscShort
+    \cup {<<97>> \o e \o <<98>> : e \in EscLike} \cup {<<60>> \o e \o <<62, 38>> : e \in EscLike} \cup {e \o e : e \in EscLike}
+    \cup {<<92, 110>>, <<92, 92, 110>>, <<92, 34>>, <<92, 92, 34>>, <<92, 98>>, <<92, 47>>, <<92, 120, 52, 49>>, <<92, 117>>, <<92, 117, 48, 48>>,
+          <<92, 60>>, <<92, 62>>, <<92, 38>>, <<92, 92, 60>>, <<38, 108, 116, 59>>, <<92, 117, 48, 48, 51, 99, 92, 117, 48, 48, 51, 101>>}
+EscValues == UNION {{StrV(e), O1(Ka, StrV(e)), O1(e, IntV(1)), A2(StrV(e), StrV(e)), O2(e, StrV(e), e \o <<33>>, Null)} : e \in EscStrings}
+
 NoRp == [k |-> "none"]
 NoSp == [t |-> "absent"]
 K1 == <<49>>
@@ -179,6 +195,20 @@ Revivers ==
      [k |-> "delsib", key |-> Ka, sib |-> Kb], [k |-> "delsib", key |-> <<48>>, sib |-> <<49>>], [k |-> "delsib", key |-> Kb, sib |-> Ka],
      [k |-> "addsib", key |-> Ka, sib |-> <<122>>], [k |-> "throwkey", key |-> Kb], [k |-> "throwkey", key |-> <<>>],
      [k |-> "other", v |-> IntV(1)], [k |-> "other", v |-> S!Obj(<<>>)], [k |-> "other", v |-> Null]}
+(* revivers that change the length / the members of their holder during the walk *)
+K0 == <<48>>
+LenRevivers ==
+    {[k |-> "setlen", key |-> K0, n |-> 1], [k |-> "setlen", key |-> K0, n |-> 0], [k |-> "setlen", key |-> K1, n |-> 1],
+     [k |-> "setlen", key |-> K1, n |-> 2], [k |-> "setlen", key |-> K0, n |-> 5], [k |-> "setlen", key |-> <<50>>, n |-> 0],
+     [k |-> "push", key |-> K0, v |-> IntV(99)], [k |-> "push", key |-> K1, v |-> A1(IntV(7))], [k |-> "push", key |-> K0, v |-> O1(Ka, IntV(7))],
+     [k |-> "setel", key |-> K0, sib |-> K1, v |-> O1(<<120>>, IntV(1))],          \* a later element replaced by an object: walked
+     [k |-> "setel", key |-> K0, sib |-> <<50>>, v |-> A2(IntV(8), IntV(9))],      \* at / beyond the end
+     [k |-> "setel", key |-> K1, sib |-> K0, v |-> A1(IntV(8))],                   \* an earlier element: not walked again
+     [k |-> "setel", key |-> K0, sib |-> <<53>>, v |-> IntV(1)],                   \* far beyond the end: holes
+     [k |-> "setel", key |-> Ka, sib |-> Kb, v |-> O2(Ka, IntV(5), Kb, A1(IntV(6)))],   \* the same on objects: key list taken once
+     [k |-> "setel", key |-> Ka, sib |-> <<122>>, v |-> A1(IntV(1))],
+     [k |-> "setel", key |-> Kb, sib |-> Ka, v |-> O1(Ka, IntV(1))],
+     [k |-> "delsib", key |-> K0, sib |-> <<50>>], [k |-> "delsib", key |-> K1, sib |-> K0], [k |-> "undefkey", key |-> K1]}
 SpecRv(rv) == IF rv.k = "other" THEN NoRv ELSE rv        \* 15.12.2 step 4: only a callable reviver is used
 
 (* 15.12.2 step 1: JText = ToString(text) for the non-string arguments used *)
@@ -240,6 +270,10 @@ ListCases ==
     IF Fam # "list" THEN {} ELSE
     {ParseCase(t, NoRv) : t \in SeqSet(ExtraTexts) \cup SeqSet(ExtraHeavyTexts) \cup SeqSet(SurrTexts) \cup SeqSet(BaseTextsMore) \cup SeqSet(ToJSONTexts)}
     \cup {ParseCase(t, [k |-> "id"]) : t \in SeqSet(ToJSONTexts)}
+    \cup {ParseCase(t, rv) : t \in SeqSet(LenTexts), rv \in LenRevivers}
+    \cup {StrCase(v, NoRp, NoSp) : v \in EscValues}
+    \cup {StrCase(O1(e, StrV(e)), NoRp, IntV(1)) : e \in EscStrings}
+    \cup {[fam |-> "rt1", v |-> v] : v \in EscValues}
     \cup {StrCase(v, rp, NoSp) : v \in ToJSONDataVals, rp \in ToJSONDataReps}
     \cup {StrCase(v, NoRp, IntV(1)) : v \in ToJSONDataVals}
     \cup {ParseCase(t, rv) : t \in SeqSet(ReviveTexts), rv \in Revivers}
@@ -298,6 +332,9 @@ JsRv(rv) ==
       [] rv.k \in {"id", "undefall", "num2str", "wrapstr"} -> <<"RVF('" \o rv.k \o "')">>
       [] rv.k \in {"undefkey", "throwkey"} -> <<"RVF('" \o rv.k \o "',", Lit(StrV(rv.key)), ")">>
       [] rv.k \in {"delsib", "addsib"} -> <<"RVF('" \o rv.k \o "',", Lit(StrV(rv.key)), ",", Lit(StrV(rv.sib)), ")">>
+      [] rv.k = "setlen" -> <<"RVF('setlen',", Lit(StrV(rv.key)), "," \o ToString(rv.n) \o ")">>
+      [] rv.k = "push" -> <<"RVF('push',", Lit(StrV(rv.key)), ",0,function(){return ">> \o JsOf(rv.v, 0) \o <<";})">>
+      [] rv.k = "setel" -> <<"RVF('setel',", Lit(StrV(rv.key)), ",", Lit(StrV(rv.sib)), ",function(){return ">> \o JsOf(rv.v, 0) \o <<";})">>
 
 JsStringify(v, rp, sp) ==
     <<"JSON.stringify(">> \o JsOf(v, 0)
